@@ -53,16 +53,27 @@ func (s *Service) VerifAuthorize(ch *security.Channel, perm uint8) bool {
 	return ok
 }
 
-func (s *Service) VerifTrie() *message.Trie        { return s.subscriptions }
-func (s *Service) VerifConnections() int64         { return s.connections }
-func (s *Service) VerifCluster() *cluster.Swarm    { return s.cluster }
-func (s *Service) VerifStorage() storage.Storage   { return s.storage }
-func (s *Service) VerifKeygen() *keygen.Service    { return s.keygen }
-func (s *Service) VerifPresenceQueued() int        { return s.presence.VerifQueued() }
-func (s *Service) VerifPresenceBarrier()           { s.presence.VerifBarrier() }
+func (s *Service) VerifTrie() *message.Trie      { return s.subscriptions }
+func (s *Service) VerifConnections() int64       { return s.connections }
+func (s *Service) VerifCluster() *cluster.Swarm  { return s.cluster }
+func (s *Service) VerifStorage() storage.Storage { return s.storage }
+func (s *Service) VerifKeygen() *keygen.Service  { return s.keygen }
+func (s *Service) VerifPresenceQueued() int      { return s.presence.VerifQueued() }
+func (s *Service) VerifPresenceBarrier()         { s.presence.VerifBarrier() }
 
 // VerifBan adds or removes a ban the way keyban does after its checks.
 func (s *Service) VerifBan(key string, on bool) {
 	b := event.Ban(key)
 	s.cluster.Notify(&b, on)
+}
+
+// VerifRelease is called by the harness after Close: the service's background goroutines (mesh actor
+// loops, presence poller, repeat timers) never end and keep the closed service reachable; dropping its
+// stores lets the Go runtime reclaim them (about 10 MB per service), so long harness runs stay small.
+func (s *Service) VerifRelease() {
+	if s.cluster != nil {
+		s.cluster.VerifDropState()
+	}
+	s.storage = nil
+	s.subscriptions = message.NewTrie()
 }
